@@ -616,6 +616,19 @@ func ruleParserWellFormed(w *World, r *RuleResult) {
 								if c, isC := iff.Cond.(*ssa.Call); isC && len(c.Common().Args) > 0 && c.Common().Args[0] == ssa.Value(se) {
 									okReset = true
 								}
+								// the mask form: res&(SystemOverflow|SystemUnderflow) != 0
+								if w.systemMaskTestEdge(iff.Cond, true) || w.systemMaskTestEdge(iff.Cond, false) {
+									derives := false
+									w.exprOf(pf, iff.Cond).walk(func(e *Expr) bool {
+										if e.V == ssa.Value(se) {
+											derives = true
+										}
+										return true
+									})
+									if derives {
+										okReset = true
+									}
+								}
 							}
 						}
 					}
@@ -759,7 +772,8 @@ func (w *World) zeroExcludedAt(f *ssa.Function, h *ssa.BasicBlock) bool {
 		_, ok := basePtr(v).(*ssa.Parameter)
 		return ok
 	}
-	for _, g := range guardsAt(h) {
+	for _, dg := range w.guardsAtDeep(f, h) {
+		g := dg.Guard
 		switch c := g.Cond.(type) {
 		case *ssa.Call:
 			n := w.calleeName(c)
@@ -789,6 +803,26 @@ func (w *World) zeroExcludedAt(f *ssa.Function, h *ssa.BasicBlock) bool {
 func (w *World) constResultsOf(v ssa.Value) ([]int64, bool) {
 	ex, ok := v.(*ssa.Extract)
 	if !ok {
+		// a single-result call
+		if c1, isC := v.(*ssa.Call); isC {
+			g := callee(c1)
+			if g == nil || !w.inPkg(g) || len(g.Blocks) == 0 || g.Signature.Results().Len() != 1 {
+				return nil, false
+			}
+			var out []int64
+			for _, b := range g.Blocks {
+				rt, isRet := b.Instrs[len(b.Instrs)-1].(*ssa.Return)
+				if !isRet {
+					continue
+				}
+				k, isK := rt.Results[0].(*ssa.Const)
+				if !isK || k.Value == nil {
+					return nil, false
+				}
+				out = append(out, ci(k))
+			}
+			return out, len(out) > 0
+		}
 		return nil, false
 	}
 	call, ok := ex.Tuple.(*ssa.Call)
